@@ -70,6 +70,8 @@ def gen_read(rng, tier):
     cursors = [0] * nh
     closed = [False] * nh  # no further ops generated (after a possibly-error op on binary data)
     counts = [rng.range(1, 12) for _ in range(nh)]
+    done = [0] * nh
+    past_eof = [0] * nh
     ops = []
     pending = []
     for i, c in enumerate(counts):
@@ -82,13 +84,26 @@ def gen_read(rng, tier):
         rem = len(data) - cursors[h]
         kind = handles[h]["kind"]
         textual = _is_text(handles[h]["content"])
-        opk = rng.weighted([(40, "read"), (14, "readall"), (26, "read_line"), (0 if kind == "stdin" else 10, "read_to_string")])
+        done[h] += 1
+        last = done[h] >= counts[h]
+        if rem == 0 and len(data) > 0:
+            # at most two operations past the end of input per handle
+            past_eof[h] += 1
+            if past_eof[h] > 2:
+                closed[h] = True
+                continue
+        # consume-everything operations are mostly kept for the end of a handle's life so that
+        # the other operations meet data, not end-of-input
+        w_all = 30 if last else 5
+        w_rts = 0 if kind == "stdin" else (25 if last else 3)
+        opk = rng.weighted([(45, "read"), (w_all, "readall"), (30, "read_line"), (w_rts, "read_to_string")])
         if opk == "read":
+            left_ops = max(1, counts[h] - done[h] + 1)
             n = rng.weighted([
-                (4, 0), (8, 1), (14, rng.range(2, 100)), (8, rng.range(100, 4000)),
+                (3, 0), (8, 1), (14, rng.range(2, 100)), (8, rng.range(100, 4000)),
                 (10, rng.choice([4095, 4096, 4097])), (10, rng.choice([8191, 8192, 8193])),
-                (8, max(0, rem - 1)), (8, rem), (8, rem + 1), (6, rng.range(8194, 30000)),
-                (4, rng.choice([12288, 16384, 65536, 1 << 30])), (6, max(1, rem // 2)),
+                (5, max(0, rem - 1)), (5, rem), (5, rem + 1), (5, rng.range(8194, 30000)),
+                (3, rng.choice([12288, 16384, 65536, 1 << 30])), (12, max(1, rem // (left_ops + 1))), (8, max(1, rem // 2)),
             ])
             ops.append({"h": h, "op": "read", "n": n})
             cursors[h] += min(n, rem)
